@@ -1041,6 +1041,13 @@ def check(ck):
         okC = okC and not any(set(ids) & after for (s, ids) in ek_muts)
     ck.ob(R3, ini.key(None, "hash-after-effective"), bool(okC), "the hash is computed from the effective kwargs (+ context args)" if okC else
           "arg_hash is not computed after effective_kwargs / effective_kwargs_with_context_args", ini.where())
+    # the key differs whenever the context arguments differ: they are on the hash input (under the reserved key, exactly
+    # when there are any) when the hash is taken, and every store of that key is on the hash input
+    from .c16 import reserved_key_clause
+    okR, where_R, stores_R, _shapes_R, n_R = reserved_key_clause(fl)
+    okR = okR and fl.hash_call is not None and n_R >= 1 and all(fl.denotes_any(m_, ini.nodes(s_)[0], hks) for (s_, m_, v_) in stores_R)
+    ck.ob(R3, ini.key(None, "hash-covers-context-args"), bool(okR), "the hashed mapping holds the context args whenever there are any" if okR else
+          "the context args are not part of what arg_hash is computed from: calls that differ only in their context args get the same key", where_R)
     # ---- how the effective kwargs are bound (the statements may live in a helper or in the constructor itself;
     # a helper that could not be flattened into the constructor is looked at on its own)
     bfa, bek = ini, ek
